@@ -181,7 +181,12 @@ def prepare_unit(unit, scratch, mutate=None):
         os.makedirs(os.path.dirname(dst), exist_ok=True)
         with open(dst, 'w') as f:
             f.write(text)
-    for sl in unit.get('slices', []):
+    slices = []
+    for other in unit.get('slices_from', []):   # reuse the slice list (and rules) of another unit whose prelude this unit includes
+        with open(os.path.join(VERIF, 'units', other, 'unit.json')) as f:
+            slices += json.load(f).get('slices', [])
+    slices += [s for s in unit.get('slices', []) if s['id'] not in [x['id'] for x in slices]]
+    for sl in slices:
         text = src_text(sl['file'])
         try:
             if sl.get('kind') == 'lines':
